@@ -426,6 +426,48 @@ def w_observe(args):
     return bad, mism, len(items)
 
 
+SEQ_DOCS = ['foo\n<div>\nbar\n', '> q\n<!-- c -->\n', '- a\n<pre>x</pre>\n', 'foo\n| a |\n|---|\n', 'some text\n\n> q\n\n- i\n', 'a `c` b\n',
+            '# h #\n\n#\n', '[r]\n\n[r]: /u "t"\n', 't\n===\n\n> t\n> ===\n', '```py\nc\n```\n\n$m$ [[w|l]]\n']
+_SEQ_BASE = {}
+
+
+def _one(ri, di):
+    from mistletoe import Document
+    name, kw = RENDERERS[ri]
+    try:
+        with configs.renderer_class(name)(**kw) as r:
+            return r.render(Document(SEQ_DOCS[di]))
+    except Exception as e:
+        return 'EXC ' + type(e).__name__ + ' ' + str(e)[:80]
+
+
+def w_sequences(firsts):
+    from mistletoe import Document
+    bad = []
+    n = 0
+    for ri in range(len(RENDERERS)):
+        for di in range(len(SEQ_DOCS)):
+            if (ri, di) not in _SEQ_BASE:
+                pristine.restore()
+                _SEQ_BASE[(ri, di)] = _one(ri, di)
+    for first in firsts:
+        for ri in range(len(RENDERERS)):
+            for di in range(len(SEQ_DOCS)):
+                pristine.restore()
+                try:
+                    if first[0] is None:
+                        Document(SEQ_DOCS[first[1]])
+                    else:
+                        _one(first[0], first[1])
+                except Exception:
+                    pass
+                got = _one(ri, di)
+                n += 2
+                if got != _SEQ_BASE[(ri, di)]:
+                    bad.append((first, (ri, di), _SEQ_BASE[(ri, di)], got))
+    return bad, n
+
+
 PUMP_COUNTS = (70, 130, 300)
 
 
@@ -548,6 +590,19 @@ def explore(tier, seed):
                 agg.fail(dict(history=[list(hist[0])], repeat=len(hist), pumped=True), sig, detail='after the operation was repeated %d times; differs: %s' % (len(hist), '; '.join(labels[i] for i in diffs)),
                          expected=want, observed=got)
     agg.extra['pumped_histories'] = len(pumped)
+    # plain two-step sequences executed in one go from a fresh state, WITHOUT the snapshot/reinstate of the search (which replaces
+    # list objects by equal copies and would hide staleness that is keyed on object identity): first a bare Document(d1) or a
+    # render under R1, then d2 under R2, compared with the fresh result of (R2, d2)
+    firsts = [(None, i) for i in range(len(SEQ_DOCS))] + [(ri, i) for ri in range(len(RENDERERS)) for i in range(len(SEQ_DOCS))]
+    with ctx.Pool(nproc) as pool:
+        nsh = max(1, min(len(firsts), nproc * 4))
+        for bad, n in pool.imap_unordered(w_sequences, [firsts[i::nsh] for i in range(nsh)]):
+            agg.transitions += n
+            for first, second, want, got in bad:
+                agg.fail(dict(sequence=True, first=list(first), second=list(second)), 'second-step-differs-from-fresh:' + RENDERERS[second[0]][0],
+                         detail='first: %s on %r; then %s on %r' % (RENDERERS[first[0]][0] if first[0] is not None else 'bare Document', SEQ_DOCS[first[1]],
+                                                                     RENDERERS[second[0]][0], SEQ_DOCS[second[1]]), expected=want, observed=got)
+    agg.extra['two_step_sequences'] = len(firsts) * len(RENDERERS) * len(SEQ_DOCS)
     reuse = instance_reuse()
     agg.extra['instance_reuse_pairs_judged'] = len(RENDERERS) * 9 * 8
     for rname, info in reuse.items():
@@ -597,6 +652,12 @@ def replay(case):
         res = instance_reuse()
         if case['renderer'] in res:
             return dict(sig='second-document-on-one-instance-differs:' + case['renderer'], detail=json.dumps(res[case['renderer']])[:300])
+        return None
+    if case.get('sequence'):
+        bad, n = w_sequences([tuple(case['first'])])
+        for first, second, want, got in bad:
+            if list(second) == list(case['second']):
+                return dict(sig='second-step-differs-from-fresh:' + RENDERERS[second[0]][0], expected=want, observed=got)
         return None
     if case.get('after_exit'):
         pristine.restore()
